@@ -75,10 +75,12 @@ def base_values(shape, dtype, variant, slot):
             v = numpy.where(v == 0, 7, v)
         elif variant == 'exp':
             v = numpy.array([(i + slot) % 4 for i in range(n)], dtype=numpy.int64)
-        elif variant in ('idx', 'nidx'):
+        elif variant in ('idx', 'nidx', 'zidx'):
             v = numpy.array([(i + slot + 1) % 2 for i in range(n)], dtype=numpy.int64)
             if variant == 'nidx':
                 v = v - 2
+            elif variant == 'zidx':   # negative entries mixed with 0: integer bounds [-1, 0]
+                v = v - 1
         elif variant == 'unit':
             v = numpy.array([(i + slot) % 3 - 1 for i in range(n)], dtype=numpy.int64)
         v = v.reshape(shape)
@@ -112,8 +114,8 @@ def _weights(shape, dtype, variant, slot, base):
     shape = tuple(shape)
     n = int(numpy.prod(shape, dtype=int))
     if dtype == 'i':
-        if variant in ('idx', 'nidx'):
-            b = base if variant == 'idx' else base + 2
+        if variant in ('idx', 'nidx', 'zidx'):
+            b = base if variant == 'idx' else base + 2 if variant == 'nidx' else base + 1
             return (1 - 2 * b).astype(numpy.int64)
         if variant == 'nz':
             return numpy.sign(base).astype(numpy.int64)
@@ -217,11 +219,11 @@ class Ctx:
             field = self.ielems[slot % 2]
         else:
             raise ValueError(kind)
-        if kind == 'ielem' and variant in ('idx', 'nidx'):
+        if kind == 'ielem' and variant in ('idx', 'nidx', 'zidx'):
             # an index must have integer bounds that nutils can PROVE to lie inside the axis (evaluable.NormDim asserts it,
             # numpy's IndexError is value dependent): element index times ones, bounds [0,1] (idx) or [-2,-1] (nidx)
             arr = field * function.Array.cast(numpy.ones(shape, dtype=int)) if shape else field
-            return (arr - 2 if variant == 'nidx' else arr), {}
+            return (arr - 2 if variant == 'nidx' else arr - 1 if variant == 'zidx' else arr), {}
         if dtype == 'b':
             if kind == 'ielem':
                 pat = function.Array.cast(base_values(shape, 'i', 'idx', slot))
